@@ -786,6 +786,19 @@ pub fn big_session(r: &mut Rng, utf8: bool) -> Vec<u8> {
                 }
                 out.extend_from_slice(format!("{}", *r.pick(&[0u32, 1, 4, 7, 31, 38, 5, 196, 2, 48])).as_bytes());
             }
+            if r.chance(1, 3) {
+                // abandoned (CAN / SUB / $x), other traffic, then another long list
+                out.extend_from_slice(*r.pick(&[&b"\x18"[..], b"\x1a", b"$p"]));
+                out.extend_from_slice(b"ab\r\n\x1b[2Cc");
+                out.extend_from_slice(b"\x1b[");
+                let n2 = *r.pick(&[33u64, 34, 40, 64]);
+                for i in 0..n2 {
+                    if i > 0 {
+                        out.push(b';');
+                    }
+                    out.extend_from_slice(format!("{}", 1 + i % 9).as_bytes());
+                }
+            }
             out.push(*r.pick(b"mmmHrhl"));
             out.extend_from_slice(b"x");
         }
@@ -800,8 +813,9 @@ pub fn big_session(r: &mut Rng, utf8: bool) -> Vec<u8> {
             // kilobytes of ill-formed bytes
             let n = *r.pick(&[1024usize, 4096, 16383, 16384, 16385, 32768]);
             let b = *r.pick(&[0xffu8, 0x80, 0xc0, 0xe2, 0xf0, 0xed]);
+            let solid = r.chance(1, 2);
             for i in 0..n {
-                out.push(if i % 97 == 96 { b'a' } else { b });
+                out.push(if !solid && i % 97 == 96 { b'a' } else { b });
             }
             out.extend_from_slice(b"end");
         }
@@ -1135,6 +1149,23 @@ pub fn api_op(r: &mut Rng, g: Geo, focus: Focus) -> Op {
         12 => Backspace,
         13 => Tab,
         14 => CarriageReturn,
+        15 if r.chance(1, 12) => {
+            // a long string in one draw() call (only the API can do that): several wraps, an
+            // unprintable somewhere inside
+            let k = *r.pick(&[40u64, 64, 65, 100, 256, 257, 300]) + r.below(4);
+            let bad = if r.chance(1, 2) { r.below(k) } else { u64::MAX };
+            let mut s = String::new();
+            for i in 0..k {
+                if i == bad {
+                    s.push(*r.pick(&['\u{7}', '\u{200b}', '\u{7f}', '\u{0}']));
+                } else if r.chance(1, 25) {
+                    s.push(*r.pick(WIDE));
+                } else {
+                    s.push(*r.pick(&NARROW.chars().collect::<Vec<_>>()));
+                }
+            }
+            Draw(s)
+        }
         15 | 16 | 17 => {
             let k = r.range(1, 5);
             let mut s = String::new();
